@@ -48,7 +48,14 @@ def generate(rng, tier):
         shape, xs, flat, bc, lanes = c02.gen_spline(rng, "Q", tier, nmax=8)
         qs = gen.queries_q(rng, xs, 5, ext=True)
         ext = bc != "per" or True
-        cases.append({"line": i1_line("Q", xs, shape, flat, ("spl", True, bc), e_array("Q", [len(qs)], qs)), "meta": {}})
+        meta = {}
+        if bc == "per" and rng.random() < 0.5:
+            # almost periodic: one lane's last value misses its first value by a tiny amount (of any size): never periodic
+            L = gen.lanes_of(shape)
+            j = rng.randrange(L)
+            flat[(shape[0] - 1) * L + j] = flat[j] + Fr(rng.choice([1, -1]), 10 ** rng.randint(4, 30))
+            meta = {"near": True}
+        cases.append({"line": i1_line("Q", xs, shape, flat, ("spl", True, bc), e_array("Q", [len(qs)], qs)), "meta": meta})
     return cases
 
 
@@ -57,6 +64,8 @@ def nontrivial(case, res):
 
 
 def oracle(case, res):
+    if case["meta"].get("near"):
+        return None if res.raw.startswith("berr ValueError") else f"first and last values differ: the Periodic boundary must be rejected with ValueError, got {res.raw[:80]}"
     return None if res.kind == "ok" else f"extrapolating spline must answer, got {res.raw[:80]}"
 
 
@@ -147,6 +156,21 @@ def extra(rng, tier):
         elif bc == "per":
             flat[(shape[0] - 1) * L:] = flat[:L]
             flat2[(shape[0] - 1) * L:] = flat2[:L]
+            if L >= 1 and rng.random() < 0.4:
+                # almost periodic data (the end values of one lane differ by a tiny amount of any size): accepted or rejected, the
+                # decision must be the same for the scaled, shifted and superposed problem (units do not matter)
+                j = rng.randrange(L)
+                k0 = (shape[0] - 1) * L + j
+                if S == "Q":
+                    flat[k0] = flat[j] + Fr(rng.choice([1, -1]), 10 ** rng.randint(4, 30))
+                    c = c * rng.choice([1, 1000, Fr(1, 1000), 10 ** 6, Fr(1, 10 ** 6)])
+                else:
+                    v = flat[j] if flat[j] != 0.0 else 1.0
+                    for _ in range(rng.choice([1, 2, 7, 300, 10 ** 5])):
+                        v = vlib.next_up(v)
+                    flat[j] = flat[j] if flat[j] != 0.0 else 1.0
+                    flat[k0] = v
+                    c = 2.0 ** rng.randint(-60, 60) * rng.choice([1, -1])
         one = Fr(1) if S == "Q" else 1.0
         def mk(X, Fl, Q, B):
             st = ("lin", ext) if kind == "lin" else ("spl", ext, B)
